@@ -1,3 +1,3 @@
 SPECIFICATION Spec
-CONSTANT MaxCalls = 5
+CONSTANT MaxCalls = 4
 CHECK_DEADLOCK FALSE
